@@ -589,17 +589,17 @@ class LinearFactor(ConjugateFactor):
         computed.
              :return: Returns the resulting dictionary to create GaussianMeasure.
         """
-        Lambda_new = measure.Lambda
+        Lambda_new = measure.Lambda + self.Lambda
         nu_new = measure.nu + self.nu
         ln_beta_new = measure.ln_beta + self.ln_beta
         new_density_dict = {"Lambda": Lambda_new, "nu": nu_new, "ln_beta": ln_beta_new}
         if update_full:
             if measure.Sigma is None:
-                Sigma_new, ln_det_Lambda_new = linalg.invert_matrix(measure.Lambda)
+                Sigma_new, ln_det_Lambda_new = linalg.invert_matrix(Lambda_new)
                 ln_det_Sigma_new = -ln_det_Lambda_new
             else:
-                Sigma_new = measure.Sigma
-                ln_det_Sigma_new = measure.ln_det_Sigma
+                Sigma_new = measure.Sigma + self.Lambda
+                ln_det_Sigma_new = measure.ln_det_Sigma + 0.0 * self.ln_beta
                 ln_det_Lambda_new = -ln_det_Sigma_new
             new_density_dict.update(
                 {
@@ -731,17 +731,17 @@ class ConstantFactor(ConjugateFactor):
         Returns:
             Returns the resulting dictionary to create GaussianMeasure.
         """
-        Lambda_new = measure.Lambda
-        nu_new = measure.nu
+        Lambda_new = measure.Lambda + self.Lambda
+        nu_new = measure.nu + self.nu
         ln_beta_new = measure.ln_beta + self.ln_beta
         new_density_dict = {"Lambda": Lambda_new, "nu": nu_new, "ln_beta": ln_beta_new}
         if update_full:
             if measure.Sigma is None:
-                Sigma_new, ln_det_Lambda_new = linalg.invert_matrix(measure.Lambda)
+                Sigma_new, ln_det_Lambda_new = linalg.invert_matrix(Lambda_new)
                 ln_det_Sigma_new = -ln_det_Lambda_new
             else:
-                Sigma_new = measure.Sigma
-                ln_det_Sigma_new = measure.ln_det_Sigma
+                Sigma_new = measure.Sigma + self.Lambda
+                ln_det_Sigma_new = measure.ln_det_Sigma + 0.0 * self.ln_beta
                 ln_det_Lambda_new = -ln_det_Sigma_new
             new_density_dict.update(
                 {
